@@ -102,3 +102,10 @@ From XV Require Gen.T7chain Proofs.Chain_tie.
 Theorem C05_fields_only_pass_through_their_own_stages : T7chain.cross_other_field_writes = [].
 Proof. exact Chain_tie.cross_fields_only_pass_through_stages. Qed.
 Print Assumptions C05_fields_only_pass_through_their_own_stages.
+
+(* the functions of this property whose Gallina counterpart is hand-written (or that only the oracles reach) still read, statement by statement, as they did when
+   the model was last validated against them (Gen/T9text.v regenerated from the source on every run; Proofs/Text_C05.v holds the validated text) *)
+From XV Require Gen.T9text Proofs.Text_C05.
+Theorem C05_hand_modelled_functions_read_as_validated : Text_C05.all_frozen.
+Proof. exact Text_C05.all_frozen_holds. Qed.
+Print Assumptions C05_hand_modelled_functions_read_as_validated.
